@@ -147,7 +147,7 @@ def run(name):
         rep_clean.append(rr.returncode)
     print(f"   replay on mutant: {rep_mut}  on clean: {rep_clean}")
     # does the repo's own suite notice?
-    if os.environ.get("SUITE"):
+    if os.environ.get("SUITE", "0") not in ("", "0"):
         apply(name)
         try:
             t = sh(f"cd {REPO} && PYTHONPATH={REPO}/src /venv/bin/python -m pytest -q -p no:cacheprovider -x tests >/dev/null 2>&1")
@@ -157,3 +157,7 @@ def run(name):
 if __name__ == "__main__":
     names = sys.argv[1:] or list(MUTS)
     for n in names: run(n)
+    # the last ./check ran on a mutant: Generated/*.lean and evidence/C10.json are the mutant's. Restore them from the
+    # clean tree so that nothing mutated can be committed by accident.
+    r = sh(f"cd {VERIF} && ./check C10 quick", env=dict(os.environ, SPOX_REPO=REPO, VERIF_SEED="0"))
+    print(f"== clean tree after the table: exit {r.returncode} (Generated and evidence restored)")
